@@ -41,7 +41,7 @@ def run(pid, tier, seed, t0, emits, level_rule):
     for emit in emits:
         for name, consts in runs_for(tier, seed, emit):
             res, n, mism, summ = vf.gen_and_replay("%s_%s_%s" % (pid, name, emit), "Gen_Relate", consts, [pid], seed,
-                                                   invariants=["OracleSane"], timeout=3000 if tier == "thorough" else 900)
+                                                   invariants=["OracleSane", "ShortcutRefines"], timeout=3000 if tier == "thorough" else 900)
             runs.append(res)
             ncases += n
             mism_all += mism
